@@ -261,6 +261,17 @@ func fileMutators() []mutator {
 		{"child-garbage", func(hc *HostileCase) { hc.block("root").Links[2].Target = "garbage" }},
 		{"link-missing", func(hc *HostileCase) { hc.block("root").Links[1].Missing = true }},
 		{"inner-link-missing", func(hc *HostileCase) { hc.block("inner").Links[0].Missing = true }},
+		// an interior node whose own UnixFS data is absent / undecodable while its links are intact, over raw or dag-pb children
+		{"inner-nodata", func(hc *HostileCase) { hc.block("inner").DataKind = "none" }},
+		{"inner-garbage", func(hc *HostileCase) { hc.block("inner").DataKind = "garbage" }},
+		{"inner-pb-kids", func(hc *HostileCase) {
+			hc.block("inner").Links = []HLink{{Name: sp(""), Tsize: ip(10), Target: "l2"}, {Name: sp(""), Tsize: ip(10), Target: "l2"}}
+			hc.block("inner").U.BlockSizes = []uint64{2, 2}
+		}},
+		{"root-bs-none-pb-kids", func(hc *HostileCase) {
+			hc.block("root").Links = []HLink{{Name: sp(""), Tsize: ip(110), Target: "inner"}, {Name: sp(""), Tsize: ip(110), Target: "inner"}}
+			hc.block("root").U.BlockSizes = nil
+		}},
 		{"leaf-pb-nodatafield", func(hc *HostileCase) { hc.block("l2").U.HasData = false }},
 		{"leaf-empty", func(hc *HostileCase) { hc.block("l1").Raw = []byte{} }},
 		{"root-type-raw", func(hc *HostileCase) { hc.block("root").U.Type = tp(0) }},
@@ -387,6 +398,16 @@ func reifyCases() []*HostileCase {
 		add("file", fmt.Sprintf("type%d-inline", ty), one(HBlock{DataKind: "unixfs", U: &HUnixFS{Type: tp(ty), HasData: true, Data: []byte("inline data"), FileSize: up(11)}}))
 		add("file", fmt.Sprintf("type%d-empty", ty), one(HBlock{DataKind: "unixfs", U: &HUnixFS{Type: tp(ty)}}))
 		add("file", fmt.Sprintf("type%d-mode", ty), one(HBlock{DataKind: "unixfs", U: &HUnixFS{Type: tp(ty), HasData: true, Data: []byte("m"), Mode: u32(0o600)}}))
+	}
+	// wide file nodes: 1023, 1024 and 1025 children (with as many BlockSizes), and a plain directory as wide
+	for _, n := range []int{174, 1023, 1024, 1025, 2048} {
+		var wl []HLink
+		var bs []uint64
+		for i := 0; i < n; i++ {
+			wl = append(wl, HLink{Name: sp(""), Tsize: ip(3), Target: "l1"})
+			bs = append(bs, 3)
+		}
+		add("file", fmt.Sprintf("wide-file-%d", n), one(HBlock{DataKind: "unixfs", U: &HUnixFS{Type: tp(2), FileSize: up(uint64(3 * n)), BlockSizes: bs}, Links: wl}))
 	}
 	add("dir", "dir-links", one(HBlock{DataKind: "unixfs", U: &HUnixFS{Type: tp(1)}, Links: links}))
 	add("dir", "dir-empty", one(HBlock{DataKind: "unixfs", U: &HUnixFS{Type: tp(1)}}))
